@@ -103,7 +103,8 @@ theorem takeTok_spec : ∀ (fuel : Nat) (bs : Bytes), bs.length < fuel →
         refine ⟨by simp, ?_, by simp⟩
         rw [hR, group_cons_sep _ _ _ hs']; simp [noWordHead]
       · have hs' : Spec.Tidy.isSep r = false := by simpa [isSep_eq] using hs
-        simp only [hs, if_false]
+        have hsf : Unit.Parse.isSep r = false := hs'
+        simp only [hsf, Bool.false_eq_true, if_false]
         have hlen : ((b :: bs).drop w).length < fuel := by
           simp only [List.length_drop, List.length_cons] at *; omega
         obtain ⟨h1, h2, h3⟩ := ih ((b :: bs).drop w) hlen
@@ -125,5 +126,262 @@ theorem takeTok_spec : ∀ (fuel : Nat) (bs : Bytes), bs.length < fuel →
             rw [group_cons_word_nohead _ _ _ hs' (by rw [h3]; exact h2), h3]; simp
           · rw [if_neg ht] at h3
             exact group_cons_word_head _ _ _ _ _ hs' h3
+
+/-- the denominator flag after a separator rune -/
+def sepDenom (r : Nat) (d : Bool) : Bool := if r == 42 then false else if r == 47 then true else d
+
+theorem rewrite_sep (d : Bool) (f : F64.Bits) (r : Nat) (enc : Bytes) (ps : List Piece) :
+    rewrite d f (.sep r enc :: ps) =
+      (enc ++ (rewrite (sepDenom r d) f ps).1, (rewrite (sepDenom r d) f ps).2) := by
+  simp [rewrite, sepDenom]
+
+/-- `skipSeps` consumes exactly the leading separator runes, tracking the denominator flag the
+way the specification does. -/
+theorem skipSeps_spec : ∀ (fuel : Nat) (bs : Bytes) (off : Nat) (d : Bool), bs.length < fuel →
+    match skipSeps fuel bs off d with
+    | none => ∀ f, rewrite d f (group (R bs)) = (bs, f)
+    | some (rest, off', d') =>
+      ∃ seps, bs = seps ++ rest ∧ off' = off + seps.length ∧
+        (∃ b bs', rest = b :: bs' ∧ Spec.Tidy.isSep (Utf8.decodeRune (b :: bs')).1 = false) ∧
+        ∀ f, rewrite d f (group (R bs)) =
+          (seps ++ (rewrite d' f (group (R rest))).1, (rewrite d' f (group (R rest))).2) := by
+  intro fuel
+  induction fuel with
+  | zero => intro bs off d h; omega
+  | succ fuel ih =>
+    intro bs off d h
+    cases bs with
+    | nil => simp [skipSeps, R_nil, group, rewrite]
+    | cons b bs =>
+      have hw := decodeRune_width b bs
+      have hR := R_cons b bs
+      simp only [skipSeps]
+      generalize hd : Utf8.decodeRune (b :: bs) = dd at *
+      obtain ⟨r, w⟩ := dd
+      simp only at hw hR ⊢
+      have hlen : ((b :: bs).drop w).length < fuel := by
+        simp only [List.length_drop, List.length_cons] at *; omega
+      -- one separator rune consumed: common continuation
+      have step : ∀ (d2 : Bool), Spec.Tidy.isSep r = true → sepDenom r d = d2 →
+          match skipSeps fuel ((b :: bs).drop w) (off + w) d2 with
+          | none => ∀ f, rewrite d f (group (R (b :: bs))) = (b :: bs, f)
+          | some (rest, off', d') =>
+            ∃ seps, b :: bs = seps ++ rest ∧ off' = off + seps.length ∧
+              (∃ b bs', rest = b :: bs' ∧ Spec.Tidy.isSep (Utf8.decodeRune (b :: bs')).1 = false) ∧
+              ∀ f, rewrite d f (group (R (b :: bs))) =
+                (seps ++ (rewrite d' f (group (R rest))).1, (rewrite d' f (group (R rest))).2) := by
+        intro d2 hsep hd2
+        have := ih ((b :: bs).drop w) (off + w) d2 hlen
+        have htl : ((b :: bs).take w).length = w := by
+          simp only [List.length_take, List.length_cons] at *; omega
+        generalize skipSeps fuel ((b :: bs).drop w) (off + w) d2 = res at *
+        cases res with
+        | none =>
+          simp only at this ⊢
+          intro f
+          rw [hR, group_cons_sep _ _ _ hsep, rewrite_sep, hd2, this f]
+          simp [List.take_append_drop]
+        | some v =>
+          obtain ⟨rest, off', d'⟩ := v
+          simp only at this ⊢
+          obtain ⟨seps, e1, e2, e3, e4⟩ := this
+          refine ⟨(b :: bs).take w ++ seps, ?_, ?_, e3, ?_⟩
+          · rw [List.append_assoc, ← e1, List.take_append_drop]
+          · rw [e2, List.length_append, htl]; omega
+          · intro f
+            rw [hR, group_cons_sep _ _ _ hsep, rewrite_sep, hd2, e4 f, List.append_assoc]
+      by_cases h42 : r = 42
+      · subst h42
+        simp only [beq_self_eq_true, if_true]
+        exact step false (by decide) (by simp [sepDenom])
+      · have h42' : (r == 42) = false := by simpa using h42
+        simp only [h42', Bool.false_eq_true, if_false]
+        by_cases h47 : r = 47
+        · subst h47
+          simp only [beq_self_eq_true, if_true]
+          exact step true (by decide) (by simp [sepDenom])
+        · have h47' : (r == 47) = false := by simpa using h47
+          simp only [h47', Bool.false_eq_true, if_false]
+          by_cases hsp : (r == 45 || Utf8.isSpace r) = true
+          · simp only [hsp, if_true]
+            exact step d (by simp only [Spec.Tidy.isSep, h42', h47', Bool.false_or]; exact hsp)
+              (by simp [sepDenom, h42', h47'])
+          · have hsp' : (r == 45 || Utf8.isSpace r) = false := by simpa using hsp
+            simp only [hsp', Bool.false_eq_true, if_false]
+            refine ⟨[], by simp, by simp, ⟨b, bs, rfl, ?_⟩, by simp⟩
+            rw [hd]
+            simp only [Spec.Tidy.isSep, h42', h47', Bool.false_or]
+            simpa [Bool.or_assoc] using hsp'
+
+theorem takeTok_nonempty (fuel : Nat) (b : UInt8) (bs : Bytes)
+    (h : Spec.Tidy.isSep (Utf8.decodeRune (b :: bs)).1 = false) :
+    (takeTok (fuel + 1) (b :: bs)).1 ≠ [] := by
+  have hw := decodeRune_width b bs
+  simp only [takeTok]
+  generalize hd : Utf8.decodeRune (b :: bs) = dd at *
+  obtain ⟨r, w⟩ := dd
+  simp only at hw h ⊢
+  have hsf : Unit.Parse.isSep r = false := h
+  simp only [hsf, Bool.false_eq_true, if_false]
+  intro hc
+  have := congrArg List.length hc
+  simp only [List.length_append, List.length_take, List.length_cons, List.length_nil] at this
+  omega
+
+/-! ### the scan loop as a fold -/
+
+def editOf (t : Tok) : Option Edit :=
+  if t.denom then none
+  else if t.tok == sNs then some ⟨t.pos, sNs.length, sSec⟩
+  else if t.tok == sMB then some ⟨t.pos, sMB.length, sB⟩
+  else none
+
+def factorOf (f : F64.Bits) (t : Tok) : F64.Bits :=
+  if t.denom then f
+  else if t.tok == sNs then F64.div f f1e9
+  else if t.tok == sMB then F64.mul f f1e6
+  else f
+
+theorem scan_eq : ∀ (ts : List Tok) (es : List Edit) (f : F64.Bits),
+    scan ts es f = (es ++ ts.filterMap editOf, ts.foldl factorOf f) := by
+  intro ts
+  induction ts with
+  | nil => intro es f; simp [scan]
+  | cons t ts ih =>
+    intro es f
+    simp only [scan, List.filterMap_cons, List.foldl_cons, editOf, factorOf]
+    by_cases hd : t.denom = true
+    · simp [hd, ih]
+    · have hd' : t.denom = false := by simpa using hd
+      by_cases h1 : (t.tok == sNs) = true
+      · simp [hd', h1, ih]
+      · have h1' : (t.tok == sNs) = false := by simpa using h1
+        by_cases h2 : (t.tok == sMB) = true
+        · simp [hd', h1', h2, ih]
+        · have h2' : (t.tok == sMB) = false := by simpa using h2
+          simp [hd', h1', h2', ih]
+
+/-- replacing the middle part: the slice bounds are valid and the result is what one expects -/
+theorem applyEdit_mid (a m z rep : Bytes) :
+    applyEdit? (a ++ m ++ z) ⟨a.length, m.length, rep⟩ = some (a ++ rep ++ z) := by
+  unfold applyEdit?
+  have h : a.length + m.length ≤ (a ++ m ++ z).length := by simp
+  simp only [h, if_true]
+  congr 1
+  have h1 : (a ++ m ++ z).take a.length = a := by
+    rw [List.append_assoc, List.take_left']; rfl
+  have h2 : (a ++ m ++ z).drop (a.length + m.length) = z := by
+    have : a.length + m.length = (a ++ m).length := by simp
+    rw [this, List.drop_left']; rfl
+  rw [h1, h2]
+
+/-- **Main simulation**: the edits collected from the tokenizer, applied last-to-first to the
+whole string, never go out of bounds and produce what the left-to-right rewriting of the
+specification produces; the factor is accumulated identically. -/
+theorem tokens_main : ∀ (fuel : Nat) (bs : Bytes) (off : Nat) (d : Bool) (pre : Bytes) (f : F64.Bits),
+    bs.length < fuel → pre.length = off →
+    applyEdits? ((tokensAux fuel bs off d).filterMap editOf) (pre ++ bs)
+        = some (pre ++ (rewrite d f (group (R bs))).1) ∧
+    (tokensAux fuel bs off d).foldl factorOf f = (rewrite d f (group (R bs))).2 := by
+  intro fuel
+  induction fuel with
+  | zero => intro bs off d pre f h; omega
+  | succ fuel ih =>
+    intro bs off d pre f h hpre
+    simp only [tokensAux]
+    have hs := skipSeps_spec (bs.length + 1) bs off d (Nat.lt_succ_self _)
+    generalize skipSeps (bs.length + 1) bs off d = res at *
+    cases res with
+    | none =>
+      simp only at hs ⊢
+      simp [applyEdits?, hs f]
+    | some v =>
+      obtain ⟨rest, off', d'⟩ := v
+      simp only at hs ⊢
+      obtain ⟨seps, e1, e2, ⟨b, bs', e3, hns⟩, e4⟩ := hs
+      have ht := takeTok_spec (rest.length + 1) rest (Nat.lt_succ_self _)
+      have hne : (takeTok (rest.length + 1) rest).1 ≠ [] := by
+        subst e3; exact takeTok_nonempty _ b bs' hns
+      generalize takeTok (rest.length + 1) rest = tt at *
+      obtain ⟨t, rest'⟩ := tt
+      simp only at ht hne ⊢
+      obtain ⟨t1, _, t3⟩ := ht
+      rw [if_neg hne] at t3
+      have hrest' : rest'.length < fuel := by
+        have h1 := congrArg List.length e1
+        have h2 := congrArg List.length t1
+        have h3 : 0 < t.length := List.length_pos_iff.mpr hne
+        simp only [List.length_append] at h1 h2
+        omega
+      have hpre' : (pre ++ seps ++ t).length = off' + t.length := by
+        simp only [List.length_append]; omega
+      have hwhole : pre ++ bs = (pre ++ seps ++ t) ++ rest' := by
+        rw [e1, t1]; simp [List.append_assoc]
+      rw [e4 f, t3]
+      simp only [List.filterMap_cons, List.foldl_cons]
+      -- the three kinds of component
+      by_cases hd : d' = true
+      · -- denominator: untouched
+        subst hd
+        have hI := ih rest' (off' + t.length) true (pre ++ seps ++ t) f hrest' hpre'
+        have hrw : rewrite true f (.word t :: group (R rest')) =
+            (t ++ (rewrite true f (group (R rest'))).1, (rewrite true f (group (R rest'))).2) := by
+          simp [rewrite]
+        rw [hrw]
+        simp only [editOf, factorOf, if_true]
+        rw [hwhole]
+        refine ⟨?_, hI.2⟩
+        rw [hI.1]; simp [List.append_assoc]
+      · have hd' : d' = false := by simpa using hd
+        subst hd'
+        by_cases h1 : (t == sNs) = true
+        · have hteq : t = sNs := by simpa using h1
+          have hI := ih rest' (off' + t.length) false (pre ++ seps ++ t) (F64.div f f1e9) hrest' hpre'
+          have hrw : rewrite false f (.word t :: group (R rest')) =
+              (sSec ++ (rewrite false (F64.div f f1e9) (group (R rest'))).1,
+               (rewrite false (F64.div f f1e9) (group (R rest'))).2) := by
+            subst hteq
+            simp [rewrite, Spec.Tidy.ns, sNs, Spec.Tidy.sec, sSec, Spec.Tidy.e9, f1e9]
+          rw [hrw]
+          simp only [editOf, factorOf, h1, if_true, Bool.false_eq_true, if_false, applyEdits?]
+          rw [hwhole]
+          refine ⟨?_, hI.2⟩
+          rw [hI.1]
+          simp only [Option.bind_some]
+          have hoff : off' = (pre ++ seps).length := by simp only [List.length_append]; omega
+          have hlen : sNs.length = t.length := by rw [hteq]
+          rw [hoff, hlen, applyEdit_mid]
+          simp [List.append_assoc]
+        · have h1' : (t == sNs) = false := by simpa using h1
+          by_cases h2 : (t == sMB) = true
+          · have hteq : t = sMB := by simpa using h2
+            have hI := ih rest' (off' + t.length) false (pre ++ seps ++ t) (F64.mul f f1e6) hrest' hpre'
+            have hrw : rewrite false f (.word t :: group (R rest')) =
+                (sB ++ (rewrite false (F64.mul f f1e6) (group (R rest'))).1,
+                 (rewrite false (F64.mul f f1e6) (group (R rest'))).2) := by
+              subst hteq
+              simp [rewrite, Spec.Tidy.ns, sMB, Spec.Tidy.mb, Spec.Tidy.b, sB, Spec.Tidy.e6, f1e6]
+            rw [hrw]
+            simp only [editOf, factorOf, h1', h2, if_true, Bool.false_eq_true, if_false, applyEdits?]
+            rw [hwhole]
+            refine ⟨?_, hI.2⟩
+            rw [hI.1]
+            simp only [Option.bind_some]
+            have hoff : off' = (pre ++ seps).length := by simp only [List.length_append]; omega
+            have hlen : sMB.length = t.length := by rw [hteq]
+            rw [hoff, hlen, applyEdit_mid]
+            simp [List.append_assoc]
+          · have h2' : (t == sMB) = false := by simpa using h2
+            have hI := ih rest' (off' + t.length) false (pre ++ seps ++ t) f hrest' hpre'
+            have hrw : rewrite false f (.word t :: group (R rest')) =
+                (t ++ (rewrite false f (group (R rest'))).1, (rewrite false f (group (R rest'))).2) := by
+              have a1 : (t == Spec.Tidy.ns) = false := h1'
+              have a2 : (t == Spec.Tidy.mb) = false := h2'
+              simp [rewrite, a1, a2]
+            rw [hrw]
+            simp only [editOf, factorOf, h1', h2', Bool.false_eq_true, if_false]
+            rw [hwhole]
+            refine ⟨?_, hI.2⟩
+            rw [hI.1]; simp [List.append_assoc]
 
 end C04
